@@ -99,7 +99,11 @@ func TestC18Ante(t *testing.T) {
 
 	emit := func(trackerPresent bool, A, cur *big.Int, msgs []c18msg, tags ...string) {
 		if trackerPresent {
-			exp := time.Unix(0, 0)
+			// the admission check uses the recorded amount whether or not its 12 hours have passed (only the end blocker
+			// refreshes it): the block time is put before, at and after the expiration
+			now := time.Unix(1_700_000_000, 0).UTC()
+			ctx = ctx.WithBlockTime(now)
+			exp := now.Add(pick(r, -time.Hour, -time.Nanosecond, 0, time.Nanosecond, time.Hour, 12*time.Hour))
 			if err := k.Tracker.Set(ctx, rtypes.StakeTracker{Expiration: &exp, Amount: math.NewIntFromBigInt(A)}); err != nil {
 				t.Fatal(err)
 			}
